@@ -400,6 +400,8 @@ func (gen *Generator) GenerateShortCircuit(or bool, args []Sexp) error {
 
 	for i := size - 2; i >= 0; i-- {
 		subgen = gen.NewSubGenerator()
+		subgen.scopes = gen.scopes
+		subgen.funcname = gen.funcname
 		if err := subgen.Generate(args[i]); err != nil {
 			return err
 		}
